@@ -52,8 +52,19 @@ CLAIMED["C11"] = ("Proof of frame (modifies) contracts for the non-reflective fu
 CLAIMED["C20"] = ("Proof that the own panic sites (index, slice bounds, nil dereference, nil-map write, unchecked type assertion, interface comparison of "
     "uncomparable dynamic types, explicit panic) of the listed decoding entry functions are unreachable for every input: ytypes.unmarshalList (any JSON "
     "value), gnmidiff writeUpdate / protoLeafToJSON / populateUpdateNoSchema (any TypedValue whose oneof wrapper is not a typed nil), ygot.StringToPath, "
-    "StringToStructuredPath, StringToStringSlicePath, extractKV, addKey and util.SplitPath / PathStringToElements (any string). Not covered: panics raised "
+    "StringToStructuredPath, StringToStringSlicePath, extractKV, addKey and util.SplitPath / PathStringToElements (any string), and ytypes.UnmarshalSetRequest with "
+    "deletePaths / replacePaths / updatePaths (any SetRequest without nil entries in Replace/Update, any options: under best-effort unmarshalling every "
+    "error they hand to the unchecked type assertion in UnmarshalSetRequest is a non-nil *ComplianceErrors). Not covered: panics raised "
     "inside reflect, protobuf and encoding/json calls and inside the reflection walkers (opaque calls), stack exhaustion.", "5 (C20)", "")
+
+CLAIMED["C13"] = ("Proof of the gNMI Set orchestration over an abstract tree: DeleteNode and SetNode (reflection walkers, not verified) are assumed only "
+    "to append one Del(path) resp. Set(path, val) record to a ghost sequence; UnmarshalSetRequest is then proved, for every request (all lengths of "
+    "Delete/Replace/Update, nil or non-nil prefix, every option), to issue on success exactly: Del(join(prefix,p)) for each delete in order, then "
+    "Del(join(prefix,u.Path)), Set(same path, u.Val) for each replace in order, then Set(join(prefix,u.Path), u.Val) for each update in order, and never to "
+    "drop or reorder operations already issued (loop invariants over the trace; joinPrefixToUpdate proved to return a fresh Update with the joined path "
+    "and the same Val; util.JoinPaths used by its verified contract). Not covered: that DeleteNode/SetNode implement delete and merge on the tree "
+    "(C10/C12, reflection), JSON payload merge semantics, UnmarshalNotifications (atomic handling) and which operations are skipped under "
+    "best-effort unmarshalling.", "5 (C13)", "")
 
 NA = {
     "C01": "RFC7951 JSON round-trip is a relation between two reflection walkers (structJSON/jsonValue vs unmarshalStruct/unmarshalList) over arbitrary generated struct types; no function-level contract within this verifier's reach carries it (no reflect memory model). Scalar kernels are decided under C18/C19 where claimed.",
@@ -76,7 +87,6 @@ PENDING = {
     "C05": "contracts not completed yet (uniqueSlices / orderedMapKeysMergeable kernels)",
     "C07": "contracts not completed yet (validateListAttr and dispatch kernels)",
     "C08": "contracts not completed yet (path string composition lemma + bounded element round trip)",
-    "C13": "contracts not completed yet (Set orchestration over a ghost trace)",
     "C15": "contracts not completed yet (generated ordered maps)",
     "C16": "contracts not completed yet (key string encode/decode pairing)",
     "C17": "contracts not completed yet (enum lookup kernels)",
@@ -92,8 +102,15 @@ PENDING = {
 
 
 def main():
+    root_commit = subprocess.run(["git", "-C", "/repo", "rev-list", "--max-parents=0", "--abbrev-commit", "HEAD"], capture_output=True, text=True).stdout.strip()
     hooks = subprocess.run(["git", "-C", "/repo", "log", "--format=%h %s"], capture_output=True, text=True).stdout.splitlines()
-    hook_commits = [l.split()[0] for l in hooks if l.split(" ", 1)[1].startswith("verif:")]
+    # hook commits: every commit that touches files and only guarded contract files (zz_contracts_verif.go)
+    hook_commits = []
+    for l in hooks:
+        h = l.split()[0]
+        files = [f for f in subprocess.run(["git", "-C", "/repo", "show", "--format=", "--name-only", h], capture_output=True, text=True).stdout.split() if f]
+        if files and all(f.endswith("zz_contracts_verif.go") for f in files) and h != root_commit:
+            hook_commits.append(h)
     checks = []
     for pid in sorted(CLAIMED):
         text, ref, extra = CLAIMED[pid]
